@@ -43,11 +43,35 @@ theorem pop_log (s : State) : s.pop.log = s.log := by
 theorem pop_files (s : State) : s.pop.files = s.files := by
   unfold State.pop; split <;> rfl
 
+/-- the `depends` list built by the loop names every theory of `depend_list` (all transitive imports, in order) -/
+theorem loopDeps_names (rec : Name → State → R) :
+    ∀ (order : List Name) (s : State) (acc : List (Name × Nat)), (loopDeps rec order s acc).1 = none →
+      (loopDeps rec order s acc).2.2.map (·.1) = acc.map (·.1) ++ order := by
+  intro order
+  induction order with
+  | nil => intro s acc _; simp [loopDeps]
+  | cons p ps ih =>
+    intro s acc
+    rw [loopDeps]
+    rcases hr : rec p s with ⟨r1, s1⟩
+    cases r1 with
+    | some e => intro h; simp at h
+    | none =>
+      simp only []
+      cases he : s1.entry p with
+      | none => intro h; simp at h
+      | some e =>
+        simp only []
+        intro h
+        rw [ih _ _ h]
+        simp
+
 theorem ltcBody_reread {fault : Option Item} {rec : Call → State → R} (hrec : RecOk W L fault rec) (n : Name) (e : Entry)
     {s : State} (hi : Inv W L s) (he : s.entry n = some e) (hch : e.stamp ≠ some (s.files n).mtime)
     (hok : (ltcBody W fault rec n s).1 = none) :
     ∃ e', (ltcBody W fault rec n s).2.entry n = some e' ∧ e'.stamp = some (s.files n).mtime ∧
-      e'.content.map (·.1) = (s.files n).items ∧ Event.readFile n ∈ (ltcBody W fault rec n s).2.log := by
+      e'.content.map (·.1) = (s.files n).items ∧ Event.readFile n ∈ (ltcBody W fault rec n s).2.log ∧
+      L.order e.imports = some (e'.deps.map (·.1)) := by
   obtain ⟨T, hT, _⟩ := cache_of_entry he
   have hem : ensureMeta s = (none, s) := by unfold ensureMeta; simp [hT]
   have hv : e.valid s n = false := by
@@ -76,14 +100,19 @@ theorem ltcBody_reread {fault : Option Item} {rec : Call → State → R} (hrec 
       simp only []
       have hipush : Inv W L s1.push := hl1.inv.of_sameCore (sameCore_push s1)
       have hloop := loopDeps_post W L (fun p s => rec (.ltc p) s) (fun p s hs => hrec (.ltc p) s hs) order s1.push [] hipush
+      have hnames := loopDeps_names (fun p s => rec (.ltc p) s) order s1.push []
+      have hordL : L.order e.imports = some order := by
+        obtain ⟨T1, hT1⟩ := Option.isSome_iff_exists.mp hc1
+        rw [← order_eq W L hl1.inv hT1]; exact hord
       rcases hlp : loopDeps (fun p s => rec (.ltc p) s) order s1.push [] with ⟨r2, s2, deps⟩
-      rw [hlp] at hloop
+      rw [hlp] at hloop hnames
       obtain ⟨hr2, _, _⟩ := hloop
-      simp only [] at hr2
+      simp only [] at hr2 hnames
       cases r2 with
       | some e' => intro hok; simp at hok
       | none =>
         simp only []
+        have hdeps : deps.map (·.1) = order := by simpa using hnames rfl
         have hc2 : s2.cache.isSome := hr2.loaded hc1
         have hfiles : s2.files = s.files := hr2.files.trans hl1.files
         unfold parseStep
@@ -95,7 +124,8 @@ theorem ltcBody_reread {fault : Option Item} {rec : Call → State → R} (hrec 
           simp only []
           have hcpop : (s2.logEv (.readFile n)).pop.cache.isSome := by
             rw [((sameCore_logEv s2 _).trans (sameCore_pop _)).1]; exact hc2
-          refine ⟨{ imports := e.imports, stamp := some (s.files n).mtime, content := content, deps := deps }, ?_, rfl, ?_, ?_⟩
+          refine ⟨{ imports := e.imports, stamp := some (s.files n).mtime, content := content, deps := deps }, ?_, rfl, ?_, ?_,
+            by rw [hordL, hdeps]⟩
           · rw [setEntry_entry _ n n _ hcpop]; simp
           · have := parseAll_fst _ _ _ _ hp
             rw [this]
